@@ -24,7 +24,11 @@ func TestVsimEntry(t *testing.T) {
 	}
 	p := sim.Lookup("C10")
 	p.Setup = vsimC10Setup
-	p.Run = vsimC10Run
+	p.Run = func(r *sim.Run) { vsimCropRun(r, false) }
+	// C08c: the same world without faults, plus the lazy-vs-in-memory differential
+	q := sim.Lookup("C08c")
+	q.Setup = vsimC10Setup
+	q.Run = func(r *sim.Run) { vsimCropRun(r, true) }
 	code := sim.ToolEntry()
 	os.Exit(code)
 }
@@ -80,7 +84,7 @@ type vsimTrackKey struct {
 	sync bool
 }
 
-func vsimC10Run(r *sim.Run) {
+func vsimCropRun(r *sim.Run, c08 bool) {
 	t := r.T
 	// ---- input
 	var img []byte
@@ -171,6 +175,9 @@ func vsimC10Run(r *sim.Run) {
 	// ---- disk, decode lazily as run() does, crop
 	cfg := sim.DrawDelivery(t)
 	faulty := t.Chance(250)
+	if c08 {
+		faulty = false
+	}
 	sink := sim.NewSink(r)
 	if faulty {
 		switch t.Draw(5) {
@@ -227,6 +234,36 @@ func vsimC10Run(r *sim.Run) {
 		return
 	}
 	vsimCheckCrop(r, img, din, refIdx, durMS, sink.Buf)
+	if !c08 {
+		return
+	}
+	// C08: the same crop from a fully decoded file must write the same bytes
+	var fe *mp4.File
+	r.Guard("DecodeFile(in memory)", func() { fe, err = mp4.DecodeFile(bytes.NewReader(img)) })
+	if err != nil {
+		r.Violate("c08c-decode", "in-memory decode failed where lazy decode succeeded: %v", err)
+		return
+	}
+	sink2 := sim.NewSink(nil)
+	func() {
+		defer func() {
+			if rec := recover(); rec != nil {
+				if _, ok := rec.(sim.HarnessAbort); ok {
+					panic(rec)
+				}
+				err = fmt.Errorf("panic: %v", rec)
+			}
+		}()
+		err = cropMP4(fe, durMS, sink2, bytes.NewReader(img))
+	}()
+	if err != nil {
+		r.Violate("c08c-crop-differs", "cropping the fully decoded file failed (%v) where cropping the lazily decoded one succeeded", err)
+		return
+	}
+	if !bytes.Equal(sink.Buf, sink2.Buf) {
+		r.Violate("c08c-crop-differs", "crop output from the lazily decoded file (%d bytes) differs from the output from the fully decoded file (%d bytes)", len(sink.Buf), len(sink2.Buf))
+	}
+	r.Probe("crop-lazy-vs-memory-compared")
 }
 
 // vsimCheckCrop is the oracle: the statement, computed with exact integer cross-multiplication on the reference expansion.
@@ -290,6 +327,8 @@ func vsimCheckCrop(r *sim.Run, img []byte, din *ref.Demux, refIdx, durMS int, ou
 			switch {
 			case bb == nil:
 				r.Violate("c10-offset", "track %d sample %d: offset %d+%d lies outside the output file", it.ID, i+1, b.Offset, b.Size)
+			case b.Size == 0:
+				// an empty sample occupies no byte: its offset is not constrained
 			case mdat == nil || b.Offset < mdat.Payload() || b.Offset+int64(b.Size) > mdat.End():
 				r.Violate("c10-offset", "track %d sample %d: offset %d is outside the new mdat payload", it.ID, i+1, b.Offset)
 			case !bytes.Equal(ab, bb):
